@@ -6,6 +6,7 @@ from props.c05 import strip, is_local, mcalls
 
 E = "biscuit_auth::datalog::expression"
 PP = "biscuit_parser::parser"
+T = "biscuit_auth::token"
 
 
 def fmt_nodes(node):
@@ -200,5 +201,30 @@ def check(fb, ctx):
     ep = fb.hir_of(E + "::Expression::print")
     arrow = [f for f in fmt_nodes(ep["body"]) if any(isinstance(p, str) and "->" in p for p in f["pieces"])]
     ctx.check(len(arrow) == 1 and "->" in tags, "TOKENS", "closures print as `$p -> body`, the form all/any parse", "TOKENS|closure", "no `->` in the closure printer or in the grammar", f"{ep['file']}:{ep['line']}")
-    ctx.not_decided = ["operator precedence for op sequences that did not come from the parser (parenthesisation is data)", "date formatting round trip", "block-level scopes are not printed by print_source (observation)"]
+    # ---- FIELDS: the printed program and the loaded program carry the same parts (facts, rules, checks, block scopes, policies)
+    def fields_of(fn, ty_regex):
+        h = fb.hir_of(fn)
+        return {f["name"] for f in find_all(h["body"], lambda z: z.get("k") == "field" and re.search(ty_regex, z.get("ety") or ""))}, h
+    NOT_DATALOG = {"context": "free-form text of the block, not part of the Datalog source", "symbols": "interning table", "version": "derived from content", "external_key": "signature data", "public_keys": "interning table"}
+    n_fields = 0
+    for loader, parser in ((T + "::builder::block::BlockBuilder::code_with_params", PP + "::parse_block_source"), (T + "::builder::authorizer::AuthorizerBuilder::code_with_params", PP + "::parse_source")):
+        produced, ph = fields_of(parser, r"parser::SourceResult\b")
+        consumed, lh = fields_of(loader, r"parser::SourceResult\b")
+        ctx.check(len(produced) >= 4, "FIELDS", f"{parser.split('::')[-1]} fills the parts of SourceResult", f"FIELDS|parser|{parser.split('::')[-1]}", f"only {sorted(produced)} are filled", f"{ph['file']}:{ph['line']}")
+        for f in sorted(produced):
+            n_fields += 1
+            ctx.check(f in consumed, "FIELDS", f"{loader.split('::')[-2]}::code_with_params loads SourceResult.{f}, which {parser.split('::')[-1]} fills", f"FIELDS|loader|{loader.split('::')[-2]}|{f}", f"the parser accepts and returns `{f}` but the loader never reads them: that part of the source is silently dropped", f"{lh['file']}:{lh['line']}")
+    for printer, ty, reference, rty in (
+        (T + "::block::Block::print_source", r"token::block::Block$", T + "::builder::block::BlockBuilder::convert_from", r"token::block::Block$"),
+        ("<token::builder::block::BlockBuilder as std::fmt::Display>::fmt", r"builder::block::BlockBuilder$", T + "::builder::block::BlockBuilder::build", r"builder::block::BlockBuilder$"),
+    ):
+        want, rh = fields_of(reference, rty)
+        want = {f for f in want if f not in NOT_DATALOG}
+        have, h = fields_of(printer, ty)
+        ctx.check(len(want) >= 4, "FIELDS", f"{reference.split('::')[-1]} reads the Datalog parts of the block", f"FIELDS|reference|{reference.split('::')[-1]}", f"only {sorted(want)}", f"{rh['file']}:{rh['line']}")
+        for f in sorted(want):
+            n_fields += 1
+            ctx.check(f in have, "FIELDS", f"{printer.split(' as ')[0].strip('<').split('::')[-1] if ' as ' in printer else 'Block::print_source'} prints `{f}`, which {reference.split('::')[-1]} carries into the block", f"FIELDS|printer|{'BlockBuilder' if ' as ' in printer else 'Block'}|{f}", f"`{f}` is part of the block's meaning but is never read by the printer: the printed source parses back to a different block", f"{h['file']}:{h['line']}")
+    ctx.floor("FIELDS instances (parser->loader and carrier->printer parts)", n_fields, 16)
+    ctx.not_decided = ["operator precedence for op sequences that did not come from the parser (parenthesisation is data)", "date formatting round trip", "Authorizer::dump_code merges facts of all origins (it is a debugging dump, not a loader input)"]
     ctx.trusted = ["nom combinators tag/value/char behave as documented", "format templates extracted from the expanded AST"]
